@@ -36,6 +36,41 @@ PROPS = {
         "assumptions": ["fault model of the reader: the stream fails (error or clean truncation) at a byte offset; fh.Close() errors inside Unpack cannot be injected through an io.Reader and are outside the property's fault model"],
         "explanation": "Unpack part: C12_unpack_ok_complete (a run that reports success did everything the fault-free run does, for every fault position), C12_unpack_header_fault_reported, C12_unpack_body_fault_reported, C12_fault_never_illegal / C12_illegal_has_culprit (policy rejections are distinguishable and have a culprit entry). Tie: 'unpack-faults' lane cuts the tar stream at every position (mapped to the model's fault by decoding with archive/tar) and compares full filesystem dumps; gzip-level read errors/truncations are judged by the oracle (success => fully materialised).",
     },
+    "_C02": {
+        "lanes": [
+            {"lane": "pack", "quick": 2500, "thorough": 60000},
+            {"lane": "unpack", "quick": 1200, "thorough": 20000},
+        ],
+        "trusted_base": [STDLIB, FSMODEL, "tar.Writer rounds ModTime to the nearest second under FormatUnknown (modelled as roundSec); PAX/USTAR encodings of long and non-ASCII names are exercised but not modelled below the entry level"],
+        "assumptions": ["trees of regular files, directories and relative links that stay inside the tree without re-entering it by its own name (F37); special files are skipped; the round-trip oracle is applied without ignore rules and without dereferencing"],
+        "explanation": "The round trip is the composition of the Pack model and the Unpack model through the entry list: C20_meta / C05_bodies_from_fs / C05_link_entries_validated characterise what Pack emits (names, bodies, validated links), C15 theorems what Unpack makes of an entry list (C15_refines_partial when present: the destination is exactly the sequential reading), C16_spelling that the entry list does not depend on how the source is spelled. No single composed theorem is proved; the end-to-end statement is decided on every run by the 'pack' lane: real Pack -> real Unpack into an empty directory -> recursive comparison of relative paths, types, contents, permission bits, link targets and mtimes rounded to the second (incl. empty and read-only directories, mode 0000 files, .4/.5/.6 s fractions), next to the model comparison of both halves.",
+    },
+    "C05": {
+        "lanes": [
+            {"lane": "pack", "quick": 2500, "thorough": 60000},
+        ],
+        "trusted_base": [STDLIB, FSMODEL],
+        "assumptions": ["open findings F13, F14 (links inside / nested dereferenced directories) and F37 (a link re-entering the source directory through its own name) are reported as KNOWN-FINDING; the 'Unpack accepts Pack's output' oracle is applied without allow-lists"],
+        "explanation": "C05_link_entries_validated (every link entry of the output was accepted by validSymlink at its on-disk path, for every tree and option set), C05_no_deref_illegal + C05_stop_propagates + C05_illegal_cause (without dereferencing an out-of-tree link makes Pack return illegal-slug, and illegal-slug has no other cause), C05_bodies_from_fs / C05_bodies_direct / C05_bodies_inside_partial (every file body is the content of a file of the tree; with dereferencing off, of a file lexically inside the source directory), C20_deref_header_body_may_differ (observation F38). Tie: 'pack' lane: model comparison of the full entry list + oracles: link entries read at their archive position, bodies vs files inside the source directory, and real Unpack run on every produced slug.",
+    },
+    "C16": {
+        "lanes": [
+            {"lane": "pack-spelling", "quick": 120, "thorough": 3000},
+            {"lane": "ignore", "quick": 1500, "thorough": 30000},
+            {"lane": "pack-spelling", "thorough": 60, "race": True},
+        ],
+        "trusted_base": [STDLIB, FSMODEL, "the process working directory is a parameter (cwd) of the model; data races between concurrent Pack calls cannot be exhibited by the model: covered by the -race supporting run (thorough) and by the repaired aliasing of the default rule list (F24, extracted fact: readRules copies the defaults)"],
+        "assumptions": ["open findings F22, F23, F30 (root given as a relative link / chained link / 'link/') are reported as KNOWN-FINDING (closed counterexamples C16_cex_*)"],
+        "explanation": "C16_cwd_irrelevant (for an absolute clean source the result does not depend on the working directory), C16_spelling / C16_spelling_trailing_slash / C16_spelling_relative (spellings that denote the same directory give the same result: dot segments, '..' detours, trailing slash, relative to cwd), counterexamples for the three root-link findings. History independence holds by construction of the model (no state between calls) and is tied to the code by the 'ignore' lane's check that parsing never changes DefaultRuleset. Tie: 'pack-spelling' lane: twelve spellings/cwds of each tree + preceding parses + four concurrent Pack calls, compared with each other and with the model.",
+    },
+    "C20": {
+        "lanes": [
+            {"lane": "pack", "quick": 2500, "thorough": 60000},
+        ],
+        "trusted_base": [STDLIB, FSMODEL],
+        "assumptions": [],
+        "explanation": "C20_meta / C20_meta_sum: for every filesystem, working directory, option set and source — whatever Pack returns — Meta.Files is the list of entry names in order and Meta.Size is the number of content bytes stored for regular entries (invariant of the mutually recursive walk incl. dereferenced files and directories and ignored subtrees); C20_entries_only_grow. Tie: 'pack' lane: returned Meta vs headers and bodies read back from the real slug (names in order, sizes, header sizes), and full model comparison.",
+    },
     "C06": {
         "lanes": [
             {"lane": "addr", "quick": 6000, "thorough": 150000},
